@@ -47,10 +47,12 @@ func restoreConfig(roots ...string) *EFConfig {
 			{Fn: "ls.checkIntegrity", Callee: "os.Remove", DroppedOnly: true, Reason: "best-effort removal of SQLite's -shm/-wal side files after a successful check"},
 			{Fn: "(*ls/internal.ResumableReader).Read", Callee: "iface:io.ReadCloser.Read", Reason: "transparent resume within the retry budget (rule R6-resumable-reader)"},
 			{Fn: "(*ls/internal.ResumableReader).Read", Callee: "iface:ls/internal.LTXFileOpener.OpenLTXFile", Reason: "transparent resume within the retry budget"},
+			{Fn: "(*ls/internal.ResumableReader).close", Callee: "iface:io.ReadCloser.Close", Reason: "closing a stream that is being discarded after a read failure (logged)"},
 			{Fn: "(*ls/internal.ResumableReader).close", Callee: "iface:io.ReadCloser.Close", Reason: "closing a stream that is being discarded (logged)"},
 			{Fn: "(*ls.Replica).Restore", Callee: "iface:ltx.FileIterator.Close", Reason: "closing the validation listing after its Err() was checked"},
 			{Fn: "ls.ReadTXIDFile", Callee: "os.ReadFile", Tolerate: []string{"os.IsNotExist"}, Reason: "no sidecar = first run"},
 			{Fn: "(*ls.Replica).Restore", Callee: "iface:io.Closer.Close", DroppedOnly: true, Reason: "closing the fully consumed source streams before entering follow mode: the restored file is already synced, renamed and checked"},
+			{Fn: "(*ls.Replica).Restore", Callee: "(*ls/internal.ResumableReader).Close", DroppedOnly: true, Reason: "the same close through the concrete reader type (source streams are read-only; the restored file is already synced, renamed and checked)"},
 			{Fn: "(*ls.Replica).Restore", Callee: "os.Stat", Reason: "the follow-mode resume probe: a failed stat falls through to the ordinary path, which stats the output again (rule R1 checks that second stat guards every creating call)"},
 			{Fn: "*", Callee: "ls.ParseSnapshotFilenameV3", Reason: "legacy listings skip names that are not snapshot files"},
 			{Fn: "*", Callee: "ls.ParseWALSegmentFilenameV3", Reason: "legacy listings skip names that are not WAL segment files"},
@@ -64,6 +66,8 @@ func restoreConfig(roots ...string) *EFConfig {
 func runC10(c *Ctx) {
 	c10OutputGuard(c, "(*ls.Replica).Restore")
 	c10OutputGuard(c, "(*ls.Replica).RestoreV3")
+	c10PublishLast(c, "(*ls.Replica).Restore")
+	c10PublishLast(c, "(*ls.Replica).RestoreV3")
 	// R2 staging (restore sites of the C03/C11 engines)
 	c10Staging(c)
 	// R3 integrity failure removes the output
@@ -82,14 +86,14 @@ func runC10(c *Ctx) {
 		for _, call := range callsTo(fn, nameIs("ls/internal.NewResumableReader")) {
 			n++
 			c.requireGuard(rule, fn, Site{call, "NewResumableReader(info...)"}, cmpFact(vFieldLoad("FileInfo.Size", nil), token.GEQ, vConstInt(100), "info.Size >= ltx.HeaderSize"))
-			a := call.Common().Args
+			a := refArgs(call)
 			ok := vFieldLoad("FileInfo.Level", nil)(a[2]) && vFieldLoad("FileInfo.MinTXID", nil)(a[3]) && vFieldLoad("FileInfo.MaxTXID", nil)(a[4]) && vFieldLoad("FileInfo.Size", nil)(a[5])
 			c.check(ok, rule, fnName(fn)+": reader opened for the plan element's (level, min, max, size)", c.pos(call), "provenance matches", "reader does not correspond to the planned file")
 		}
 		c.floor(rule, n, 1, "NewResumableReader in Restore")
 		// the plan is the one computed by CalcRestorePlan for (opt.TXID, opt.Timestamp)
 		for _, call := range callsTo(fn, nameIs("ls.CalcRestorePlan")) {
-			a := call.Common().Args
+			a := refArgs(call)
 			c.check(vFieldLoad("RestoreOptions.TXID", nil)(a[2]) && vFieldLoad("RestoreOptions.Timestamp", nil)(a[3]), rule, fnName(fn)+": plan computed for (opt.TXID, opt.Timestamp)", c.pos(call), "provenance matches", "the plan is not computed for the requested target")
 		}
 	}
@@ -182,11 +186,16 @@ func c10IntegrityCleanup(c *Ctx, name string) {
 	if fn == nil {
 		return
 	}
-	ks := callsTo(fn, nameIs("ls.checkIntegrity"))
+	ks := callSitesV(fn, nameIs("ls.checkIntegrity"))
 	c.floor(rule, len(ks), 1, "checkIntegrity call in "+name)
-	for _, k := range ks {
-		path := k.Common().Args[1]
-		c.check(vFieldLoad("RestoreOptions.OutputPath", nil)(path), rule, name+": integrity check runs on opt.OutputPath", c.pos(k), "provenance matches", "integrity check does not examine the published output")
+	top := fn
+	for _, vs := range ks {
+		k := vs.Call()
+		// the check and its cleanup may live in an extracted helper: the branch structure is
+		// examined where the call stands, the provenance along the call string
+		fn := k.Parent()
+		path := refArgs(k)[1]
+		c.check(vFieldLoad("RestoreOptions.OutputPath", nil)(resolveThroughCtx(path, vs.Ctx)), rule, name+": integrity check runs on opt.OutputPath", c.pos(k), "provenance matches", "integrity check does not examine the published output")
 		kerr := resultOf(k, 0)
 		var rms []ssa.CallInstruction
 		for _, rm := range callsTo(fn, nameIs("os.Remove")) {
@@ -249,7 +258,12 @@ func c10IntegrityCleanup(c *Ctx, name string) {
 		okF, why := failStopOK(fn, k)
 		c.check(okF, rule, name+": a failed integrity check is returned as an error", c.pos(k), "fail-stop", why)
 		// gated by the requested mode only
-		c.requireGuard(rule, fn, Site{k, "checkIntegrity"}, cmpFact(vFieldLoad("RestoreOptions.IntegrityCheck", nil), token.NEQ, vConstInt(0), "opt.IntegrityCheck != IntegrityCheckNone"))
+		vs.Desc = "checkIntegrity"
+		c.requireGuardV(rule, top, vs, cmpFact(vFieldLoad("RestoreOptions.IntegrityCheck", nil), token.NEQ, vConstInt(0), "opt.IntegrityCheck != IntegrityCheckNone"))
+		if fn != top {
+			okT, whyT := failStopOK(top, vs.At().(ssa.CallInstruction))
+			c.check(okT, rule, name+": a failed integrity check is returned as an error", c.pos(vs.At()), "fail-stop at the helper's call site", whyT)
+		}
 	}
 	// checkIntegrity itself: success requires result == "ok"
 	if ci := c.fn(rule, "ls.checkIntegrity"); ci != nil {
@@ -273,7 +287,7 @@ func c10Sinks(c *Ctx) {
 			okF, why := failStopV(vd)
 			c.check(okF, rule, fnName(fn)+": DecodeDatabaseTo failure fails the restore", c.pos(d), "fail-stop", why)
 			// decodes from the compactor pipe into the staged file
-			c.check(vCallResult(nameIs("os.Create"))(d.Common().Args[1]), rule, fnName(fn)+": database decoded into the staged file", c.pos(d), "os.Create(tmp)", "decoded into something else")
+			c.check(vCallResult(nameIs("os.Create"))(refArgs(d)[1]), rule, fnName(fn)+": database decoded into the staged file", c.pos(d), "os.Create(tmp)", "decoded into something else")
 		}
 		// compactor goroutine: every input reader is a plan element, compaction error reaches the pipe (cone walk)
 	}
@@ -326,6 +340,7 @@ func isParamExactly(v ssa.Value, p *ssa.Parameter) bool {
 
 func runC19(c *Ctx) {
 	createTruncRule(c, "R5-reassembled-files-start-empty")
+	c10PublishLast(c, "(*ls.Replica).RestoreV3")
 	c19UseMetadata(c)
 	// R1 contiguity
 	if fn := c.fn("R1-segment-contiguity", "(*ls.Replica).applyWALSegmentsV3"); fn != nil {
@@ -407,93 +422,14 @@ func runC19(c *Ctx) {
 			c.check(whole || (g != nil && vFieldLoad("SnapshotInfoV3.Generation", nil)(g)), "R1-segment-contiguity", fnName(fn)+": segments come from the snapshot's generation", c.pos(call), "snapshot.Generation", "segments of another generation could be applied")
 		}
 		for _, call := range callsTo(fn, nameIs("ls.filterWALSegmentsV3")) {
-			a := call.Common().Args
+			a := refArgs(call)
 			c.check(vFieldLoad("SnapshotInfoV3.Index", nil)(a[1]) && vFieldLoad("RestoreOptions.Timestamp", nil)(a[2]), "R2-eligibility", fnName(fn)+": segments filtered by (snapshot.Index, opt.Timestamp)", c.pos(call), "provenance matches", "filter arguments are not the snapshot index and requested time")
 		}
 		for _, call := range callsTo(fn, nameIs("ls.findBestSnapshotV3")) {
-			c.check(vFieldLoad("RestoreOptions.Timestamp", nil)(call.Common().Args[1]), "R2-eligibility", fnName(fn)+": snapshot chosen for opt.Timestamp", c.pos(call), "provenance matches", "snapshot not chosen for the requested time")
+			c.check(vFieldLoad("RestoreOptions.Timestamp", nil)(refArgs(call)[1]), "R2-eligibility", fnName(fn)+": snapshot chosen for opt.Timestamp", c.pos(call), "provenance matches", "snapshot not chosen for the requested time")
 		}
 	}
-	// R2 eligibility
-	if fn := c.fn("R2-eligibility", "ls.findBestSnapshotV3"); fn != nil {
-		const rule = "R2-eligibility"
-		ts := vParam("timestamp")
-		n := 0
-		alts := append([]FP{isZeroTime(ts, "timestamp.IsZero()")}, notAfter(vFieldLoad("SnapshotInfoV3.CreatedAt", nil), ts, "snapshot.CreatedAt not after timestamp")...)
-		for _, ret := range returns(fn) {
-			if len(ret.Results) == 0 || isNilConst(retOperand(ret, 0)) || inRangeFuncResume(ret.Block()) {
-				continue
-			}
-			n++
-			c.requireAlts(rule, fn, Site{ret, "return &snapshots[i]"}, alts)
-		}
-		// `return &snapshots[i]` inside a range-over-func body
-		for _, st := range yieldResultStores(fn, 0) {
-			if isNilConst(st.Val) {
-				continue
-			}
-			n++
-			c.requireAlts(rule, fn, Site{st, "return &snapshots[i]"}, alts)
-		}
-		c.floor(rule, n, 2, "non-nil returns of findBestSnapshotV3")
-	}
-	if fn := c.fn("R2-eligibility", "ls.filterWALSegmentsV3"); fn != nil {
-		const rule = "R2-eligibility"
-		ts := vParam("timestamp")
-		n := 0
-		for _, call := range calls(fn) {
-			if calleeName(call) != "builtin:append" {
-				continue
-			}
-			n++
-			c.requireGuard(rule, fn, Site{call, "result = append(result, seg)"}, cmpFact(vFieldLoad("WALSegmentInfoV3.Index", nil), token.GEQ, vParam("snapshotIndex"), "seg.Index >= snapshotIndex"))
-			alts := append([]FP{isZeroTime(ts, "timestamp.IsZero()")}, notAfter(vFieldLoad("WALSegmentInfoV3.CreatedAt", nil), ts, "seg.CreatedAt not after timestamp")...)
-			c.requireAlts(rule, fn, Site{call, "result = append(result, seg)"}, alts)
-		}
-		// the library form: slices.DeleteFunc(copy, pred) keeps exactly the elements for which pred is false
-		for _, call := range callsTo(fn, nameIs("slices.DeleteFunc")) {
-			a := call.Common().Args
-			mc, isMC := a[1].(*ssa.MakeClosure)
-			if !isMC {
-				continue
-			}
-			g := mc.Fn.(*ssa.Function)
-			n++
-			need := [][]FP{
-				{cmpFact(vFieldLoad("WALSegmentInfoV3.Index", nil), token.GEQ, vParam("snapshotIndex"), "seg.Index >= snapshotIndex")},
-				append([]FP{isZeroTime(ts, "timestamp.IsZero()")}, notAfter(vFieldLoad("WALSegmentInfoV3.CreatedAt", nil), ts, "seg.CreatedAt not after timestamp")...),
-			}
-			for _, alts := range need {
-				ok := true
-				for _, r := range returns(g) {
-					v := retOperand(r, 0)
-					if vConstBool(true)(v) && isConst(v) {
-						continue // element deleted
-					}
-					if isConst(v) {
-						gd, k := guardedBy(r, alts...)
-						ok = ok && k > 0 && gd
-						continue
-					}
-					if !valueEntails(v, false, alts, 0) {
-						gd, k := guardedBy(r, alts...)
-						ok = ok && k > 0 && gd
-					}
-				}
-				c.check(ok, rule, fnName(fn)+": a segment is kept (predicate false) only if ["+descs(alts)+"]", c.pos(call), "every false return of the delete predicate entails the fact", "a segment outside the eligible range can be kept")
-			}
-			// the filtered slice is what is returned, and the input is the (copied) segment list
-			src := a[0]
-			okSrc := vParam("segments")(src)
-			for _, o := range origins(src) {
-				if cl, isCl := o.(*ssa.Call); isCl && calleeName(cl) == "slices.Clone" && vParam("segments")(cl.Call.Args[0]) {
-					okSrc = true
-				}
-			}
-			c.check(okSrc, rule, fnName(fn)+": filters the given segment list", c.pos(call), "segments (or a clone)", "filter applied to another list")
-		}
-		c.floor(rule, n, 1, "appends in filterWALSegmentsV3")
-	}
+	v3TimestampEligibility(c)
 	errflowCone(c, func() *EFConfig {
 		cfg := restoreConfig("(*ls.Replica).RestoreV3")
 		cfg.Rule = "R3-errflow-restorev3-cone"
@@ -508,7 +444,7 @@ func runC19(c *Ctx) {
 			c.requireGuard(rule, fn, Site{call, "RestoreV3"}, truthFact(vResult(nameIs("(*ls.Replica).shouldUseV3Restore"), 0), true, "shouldUseV3Restore"))
 		}
 		for _, call := range callsTo(fn, nameIs("(*ls.Replica).shouldUseV3Restore")) {
-			c.check(vFieldLoad("RestoreOptions.Timestamp", nil)(call.Common().Args[3]), rule, fnName(fn)+": arbitration for opt.Timestamp", c.pos(call), "provenance matches", "arbitration ignores the requested time")
+			c.check(vFieldLoad("RestoreOptions.Timestamp", nil)(refArgs(call)[3]), rule, fnName(fn)+": arbitration for opt.Timestamp", c.pos(call), "provenance matches", "arbitration ignores the requested time")
 		}
 	}
 	// the time bounds both formats are compared by are true extremes
@@ -543,7 +479,7 @@ func runC19(c *Ctx) {
 		}
 		c.floor(rule, n, 1, "true returns in the timestamp branch of shouldUseV3Restore")
 		for _, call := range callsTo(fn, nameIs("(*ls.Replica).findBestV3SnapshotForTimestamp", "(*ls.Replica).findBestLTXSnapshotForTimestamp")) {
-			a := call.Common().Args
+			a := refArgs(call)
 			c.check(ts(a[len(a)-1]), rule, fnName(fn)+": eligible snapshots looked up for the requested timestamp", c.pos(call), "timestamp forwarded", "lookup uses a different time")
 		}
 	}
@@ -738,4 +674,149 @@ func c19UseMetadata(c *Ctx) {
 		}
 	}
 	c.floor(rule, n, 1, "timestamp-filtered snapshot listings")
+}
+
+// v3TimestampEligibility: in the v0.3.x path a snapshot or WAL segment is selected only if
+// it is not newer than the requested time (shared by C19, C10 and C15: a timestamp
+// restore never returns data from after T whichever format serves it).
+func v3TimestampEligibility(c *Ctx) {
+	// R2 eligibility
+	if fn := c.fn("R2-eligibility", "ls.findBestSnapshotV3"); fn != nil {
+		const rule = "R2-eligibility"
+		ts := vParam("timestamp")
+		n := 0
+		alts := append([]FP{isZeroTime(ts, "timestamp.IsZero()")}, notAfter(vFieldLoad("SnapshotInfoV3.CreatedAt", nil), ts, "snapshot.CreatedAt not after timestamp")...)
+		for _, ret := range returns(fn) {
+			if len(ret.Results) == 0 || isNilConst(retOperand(ret, 0)) || inRangeFuncResume(ret.Block()) {
+				continue
+			}
+			n++
+			c.requireAlts(rule, fn, Site{ret, "return &snapshots[i]"}, alts)
+		}
+		// `return &snapshots[i]` inside a range-over-func body
+		for _, st := range yieldResultStores(fn, 0) {
+			if isNilConst(st.Val) {
+				continue
+			}
+			n++
+			c.requireAlts(rule, fn, Site{st, "return &snapshots[i]"}, alts)
+		}
+		c.floor(rule, n, 2, "non-nil returns of findBestSnapshotV3")
+	}
+	if fn := c.fn("R2-eligibility", "ls.filterWALSegmentsV3"); fn != nil {
+		const rule = "R2-eligibility"
+		ts := vParam("timestamp")
+		n := 0
+		for _, call := range calls(fn) {
+			if calleeName(call) != "builtin:append" {
+				continue
+			}
+			n++
+			c.requireGuard(rule, fn, Site{call, "result = append(result, seg)"}, cmpFact(vFieldLoad("WALSegmentInfoV3.Index", nil), token.GEQ, vParam("snapshotIndex"), "seg.Index >= snapshotIndex"))
+			alts := append([]FP{isZeroTime(ts, "timestamp.IsZero()")}, notAfter(vFieldLoad("WALSegmentInfoV3.CreatedAt", nil), ts, "seg.CreatedAt not after timestamp")...)
+			c.requireAlts(rule, fn, Site{call, "result = append(result, seg)"}, alts)
+		}
+		// the library form: slices.DeleteFunc(copy, pred) keeps exactly the elements for which pred is false
+		for _, call := range callsTo(fn, nameIs("slices.DeleteFunc")) {
+			a := refArgs(call)
+			mc, isMC := a[1].(*ssa.MakeClosure)
+			if !isMC {
+				continue
+			}
+			g := mc.Fn.(*ssa.Function)
+			n++
+			need := [][]FP{
+				{cmpFact(vFieldLoad("WALSegmentInfoV3.Index", nil), token.GEQ, vParam("snapshotIndex"), "seg.Index >= snapshotIndex")},
+				append([]FP{isZeroTime(ts, "timestamp.IsZero()")}, notAfter(vFieldLoad("WALSegmentInfoV3.CreatedAt", nil), ts, "seg.CreatedAt not after timestamp")...),
+			}
+			for _, alts := range need {
+				ok := true
+				for _, r := range returns(g) {
+					v := retOperand(r, 0)
+					if vConstBool(true)(v) && isConst(v) {
+						continue // element deleted
+					}
+					if isConst(v) {
+						gd, k := guardedBy(r, alts...)
+						ok = ok && k > 0 && gd
+						continue
+					}
+					if !valueEntails(v, false, alts, 0) {
+						gd, k := guardedBy(r, alts...)
+						ok = ok && k > 0 && gd
+					}
+				}
+				c.check(ok, rule, fnName(fn)+": a segment is kept (predicate false) only if ["+descs(alts)+"]", c.pos(call), "every false return of the delete predicate entails the fact", "a segment outside the eligible range can be kept")
+			}
+			// the filtered slice is what is returned, and the input is the (copied) segment list
+			src := a[0]
+			okSrc := vParam("segments")(src)
+			for _, o := range origins(src) {
+				if cl, isCl := o.(*ssa.Call); isCl && calleeName(cl) == "slices.Clone" && vParam("segments")(cl.Call.Args[0]) {
+					okSrc = true
+				}
+			}
+			c.check(okSrc, rule, fnName(fn)+": filters the given segment list", c.pos(call), "segments (or a clone)", "filter applied to another list")
+		}
+		c.floor(rule, n, 1, "appends in filterWALSegmentsV3")
+	}
+	if fn := c.fn("R2-eligibility", "(*ls.Replica).RestoreV3"); fn != nil {
+		_ = fn
+	}
+}
+
+// c10PublishLast: the rename onto the output path is the last content-producing step
+// of a restore.  Every fallible call that can run after the rename has succeeded is one
+// of the finishing steps (directory sync, integrity check with its own cleanup, follow
+// mode on the completed database); a step that fetches, validates or applies replica
+// data after publication would leave a partial database at the output path when it fails.
+func c10PublishLast(c *Ctx, name string) {
+	const rule = "R8-publish-last"
+	fn := c.fn(rule, name)
+	if fn == nil {
+		return
+	}
+	finishing := nameIs("ls/internal.FsyncDir", "ls.checkIntegrity", "ls.WriteTXIDFile", "(*ls.Replica).follow",
+		"os.Remove", "iface:context.Context.Err", "iface:io.Closer.Close", "iface:io.ReadCloser.Close", "(*ls/internal.ResumableReader).Close")
+	n := 0
+	for _, ren := range callsTo(fn, nameIs("os.Rename")) {
+		if len(ren.Common().Args) != 2 || !vFieldLoad("RestoreOptions.OutputPath", nil)(ren.Common().Args[1]) {
+			continue
+		}
+		n++
+		region := map[*ssa.BasicBlock]bool{}
+		for _, e := range nilEdges(fn, ren) {
+			for b := range reachable(fn, e.From.Succs[e.Succ], nil) {
+				region[b] = true
+			}
+		}
+		var bad []string
+		var scan func(f *ssa.Function, in func(*ssa.BasicBlock) bool, depth int)
+		scan = func(f *ssa.Function, in func(*ssa.BasicBlock) bool, depth int) {
+			for _, k := range calls(f) {
+				if !in(k.Block()) || k == ren {
+					continue
+				}
+				if _, isDefer := k.(*ssa.Defer); isDefer {
+					continue
+				}
+				if errResultIndex(k.Common().Signature()) < 0 || finishing(calleeName(k)) {
+					continue
+				}
+				if nm := calleeName(k); strings.HasPrefix(nm, "fmt.") || strings.HasPrefix(nm, "errors.") {
+					continue // builds an error value, cannot fail
+				}
+				if h := k.Common().StaticCallee(); isNewHelper(h) && depth < 2 {
+					scan(h, func(*ssa.BasicBlock) bool { return true }, depth+1)
+					continue
+				}
+				bad = append(bad, calleeName(k)+" @ "+c.pos(k))
+			}
+		}
+		scan(fn, func(b *ssa.BasicBlock) bool { return region[b] }, 0)
+		c.check(len(bad) == 0, rule, fnName(fn)+": nothing that can fail runs after the rename onto the output path except the finishing steps", c.pos(ren),
+			"only directory sync, integrity check, follow mode and closes follow the publication",
+			"a fallible step runs after the database was published at the output path: "+strings.Join(bad, "; ")+" — its failure returns an error but leaves a database (possibly partial) behind")
+	}
+	c.floor(rule, n, 1, "rename onto opt.OutputPath in "+name)
 }
